@@ -29,5 +29,5 @@ func TestSystemInhibition(t *testing.T) {
 	sub := vf.Cur().Sub("system-inhibition", "generated system scenario with 1-2 inhibition rules on the real app in virtual time (alerts firing, refreshed, resolving, timing out, provider GC every 1-30 min, reloads), API probes; every attempt: no listed firing alert was surely inhibited over [flush tick, send]; GET /alerts inhibitedBy is non-empty iff the reference says inhibited; alerts whose source resolved are notified within the bound; non-trivial = some probe saw an inhibited alert; distinct by (seed, attempts, judged counters)", 20)
 	sysrun.Run(t, "C03", sub, sysrun.Family{Name: "inh", Quick: 200, Thorough: 8000,
 		NonTrivial: func(c map[string]int64) bool { return c["api_statuses_inhibited"] > 0 },
-		Opt: scen.GenOpt{Horizon: 2 * time.Hour, Depth: 2, Fanout: 2, Inhibit: true, Probes: true, ShortTimers: true, Reloads: true, MaxLabelSets: 8}}, sysCheckers)
+		Opt:        scen.GenOpt{Horizon: 2 * time.Hour, Depth: 2, Fanout: 2, Inhibit: true, Probes: true, ShortTimers: true, Reloads: true, MaxLabelSets: 8}}, sysCheckers)
 }
